@@ -303,6 +303,8 @@ class BasisSHO(BasisSet):
                     + self.op_mat(r"b^\dagger b"))
             # the origin is x0: x p = y p + x0 p
             mat = mat + self.x0 * 1j * np.sqrt(self.omega / 2) * (self.op_mat(r"b^\dagger") - self.op_mat("b"))
+            if self.dvr:
+                mat = self.dvr_v.T @ mat @ self.dvr_v
 
         elif op_symbol == "x dx":
             # x dx is real, while x p is imaginary
@@ -315,6 +317,8 @@ class BasisSHO(BasisSet):
                     - self.op_mat(r"b^\dagger b"))
             # the origin is x0: p x = p y + x0 p
             mat = mat + self.x0 * 1j * np.sqrt(self.omega / 2) * (self.op_mat(r"b^\dagger") - self.op_mat("b"))
+            if self.dvr:
+                mat = self.dvr_v.T @ mat @ self.dvr_v
 
         elif op_symbol == "dx x":
             mat = (self.op_mat("p x") / -1.0j).real
